@@ -363,4 +363,18 @@ PROPS = {
                      "chan_send_after_close_counterexample — recorded as a contract, not as a finding)"],
         timeout=dict(quick=300, thorough=7200),
     ),
+    "C13": dict(
+        modules=["Drpc.Props.C13", "Drpc.Tie.C08", "Drpc.Tie.C09", "Drpc.Tie.C10", "Drpc.Tie.C11", "Drpc.Tie.C14", "Drpc.Tie.C03", "Drpc.Tie.Manager"],
+        suites=["wire", "reader", "meta", "errs", "http", "stream"],
+        oracle_filter=r"panic|alloc|bound|memory|hang|leak|regress",
+        mismatch_violation_pattern=r"panic",
+        rule="all receive paths under recover: the suites of C08 (parser: exhaustive short strings, hostile headers, mutated frames), "
+             "C09 (reader: hostile streams, huge declared lengths, every chunking), C10 (error decoder, code extraction incl. cycles and "
+             "nil unwraps), C11 (metadata decoder: exhaustive short inputs, mutated encodings), C14 (gateway: header strings exhaustive "
+             "to length 5 incl. mostly-'%', bodies around the limits, error values) and the stream suite (packets of every kind in every "
+             "state). Counted as violations here: any panic outcome, any memory/allocation-bound oracle, any hang or leaked goroutine",
+        trusted=COMMON_TRUST + ["real panics, out-of-bounds reads and allocation sizes are runtime facts: evidenced by running the entry "
+                                "points under recover and with allocation measurements, not proved"],
+        assumptions=[],
+    ),
 }
